@@ -8,6 +8,7 @@ import Rpki.Proofs.CrlDerLemmas
 import Rpki.Gen.BerEq
 import Rpki.Gen.BerLemmas
 import Rpki.Gen.BerMonoGen
+import Rpki.Proofs.SigMsgEncLemmas
 namespace Rpki.Props.C10
 set_option autoImplicit false
 open Rpki.SigObj Rpki.SigMsg Rpki.Der
@@ -217,5 +218,83 @@ theorem accepted_message_octets_either_mode (ber : Bool) (b : Bytes) (m : SigMsg
     rw [← this]; exact h8
 
 end EitherMode
+
+/-! ### created messages, on octets
+
+`SignedMessage::create` as the writer models see it (`Model/SigMsgEnc.lean`, `Model/IdEnc.lean`: tied to the library
+byte for byte by the `bytes sigmsg` / `bytes idcert` operations): an EE identity certificate for a one-off key with
+the subject key identifier of that key, issued under the key with identifier `K` for the requested validity, not a
+CA; a CRL for the same window under the same key with an empty list; signed attributes with the protocol content
+type and the digest of the content.  Reading the written octets back and validating them is the statement's
+"messages created by the library validate for every time within their validity and for no other key" — end to
+end from the octets, the verdicts of the signature primitive being the only inputs. -/
+section Created
+open Rpki.SigMsgDer
+
+theorem created_message_octets (content K attrs sig csig lsig : Bytes) (st : X509.Civil)
+    (c : IdCertD) (hc : IdEnc.WF c) (hci : CertDer.Forest c.issuer) (hcs : CertDer.Forest c.subject)
+    (l : MsgCrlD) (hl : SigMsgEnc.WFCrl l) (hli : CertDer.Forest l.issuer)
+    (hski : c.ski = Sha.sha1N c.keyBits) (haki : c.aki = some K) (hbc : c.basicCa = none)
+    (hlaki : l.aki = some K) (hrev : l.revoked = []) (hthis : l.thisUpdate = c.notBefore) (hnext : l.nextUpdate = c.notAfter)
+    (hp : parseAttrs false attrs = some (Consts.oidProtocolContentType, Sha.sha256N content, st))
+    (rest peer : Bytes) (when : Int) :
+    ∃ m, decodeSigMsg (SigMsgEnc.encodeSigMsg content (IdEnc.encodeIdCert c csig) (SigMsgEnc.encodeMsgCrl l lsig)
+          c.ski attrs sig ++ rest) = some m ∧
+      (SigMsg.validateAt Sha.sha256N (toMsg m true (tlv 0x31 attrs) true true) peer when = true ↔
+        (peer = K ∧ CertDer.civilToEpoch c.notBefore ≤ when ∧ when ≤ CertDer.civilToEpoch c.notAfter)) := by
+  have hd := SigMsgEnc.decodeSigMsg_built content c.ski attrs (Sha.sha256N content) sig csig lsig st c hc hci hcs l hl hli
+    hc.ski hp rest
+  refine ⟨_, hd, ?_⟩
+  rw [validateAt_iff]
+  have hser : msgRevokedSerials ([] : Bytes) = some [] := by decide
+  simp only [toMsg, IdEnc.readBack, eeValid_iff, crlValid_iff, hski, haki, hbc, hlaki, hrev, hthis, hnext, hser,
+    Option.getD_some, List.not_mem_nil, not_false_eq_true, and_true, true_and, beq_self_eq_true, ne_eq,
+    reduceCtorEq, Option.some.injEq, forall_eq']
+  constructor
+  · rintro ⟨_, _, ⟨hw, hk⟩, _, _, hk2⟩
+    exact ⟨hk.symm, hw.1, hw.2⟩
+  · rintro ⟨rfl, h1, h2⟩
+    exact ⟨rfl, ⟨_, st, hp, rfl⟩, ⟨⟨h1, h2⟩, rfl⟩, h1, h2, rfl⟩
+
+end Created
+
+/-! ### exactly when, on octets (strict decoding) -/
+section Iff
+open Rpki.SigMsgDer
+
+/-- **A decoded message validates exactly when** the digest attribute read from the octets is the SHA-256 of the
+content, the signature was made with the EE key over the DER SET OF all signed attributes, the signer identifier is
+the EE certificate's subject key identifier, which is the SHA-1 of its key bits, the EE certificate is signed by the
+peer key, current and not a CA, the CRL is signed by the peer key, consistent, current, and the walk over its list
+does not meet the EE certificate's serial number — all read from the octets, the three signature verdicts and the
+signature input being the only other inputs. -/
+theorem message_octets_accepted_iff (b : Bytes) (m : SigMsgD) (hd : decodeSigMsg b = some m)
+    (sigKeyOk eeSigOk crlSigOk : Bool) (sigInput peer : Bytes) (when : Int) :
+    SigMsg.validateAt Sha.sha256N (toMsg m sigKeyOk sigInput eeSigOk crlSigOk) peer when = true ↔
+    (Sha.sha256N m.content = m.messageDigest ∧ sigKeyOk = true ∧ sigInput = tlv 0x31 m.attrs ∧
+     m.sid = m.cert.ski ∧ m.cert.ski = Sha.sha1N m.cert.keyBits ∧ eeSigOk = true ∧
+     m.cert.validity.nb ≤ when ∧ when ≤ m.cert.validity.na ∧ (∀ a, m.cert.aki = some a → a = peer) ∧
+     m.cert.basicCa ≠ some true ∧
+     m.crl.innerParam = m.crl.outerParam ∧ crlSigOk = true ∧
+     CertDer.civilToEpoch m.crl.thisUpdate ≤ when ∧ when ≤ CertDer.civilToEpoch m.crl.nextUpdate ∧
+     (∀ a, m.crl.aki = some a → a = peer) ∧
+     (∀ l, msgRevokedSerials m.crl.revoked = some l → m.cert.serial ∉ l)) := by
+  constructor
+  · exact accepted_message_octets b m hd sigKeyOk eeSigOk crlSigOk sigInput peer when
+  · rintro ⟨h1, h2, h3, h4, h5, h6, h7, h8, h9, h10, h11, h12, h13, h14, h15, h16⟩
+    obtain ⟨st, hp⟩ := decodeSigMsg_spec b m hd
+    obtain ⟨l, hl⟩ : ∃ l, msgRevokedSerials m.crl.revoked = some l := by
+      obtain ⟨n, hn⟩ := decodeSigMsg_revoked b m hd
+      obtain ⟨items, hi, _, _⟩ :=
+        Der.capture_iterate_parity takeOptMsgEntry (fun _ => true) m.crl.revoked.length m.crl.revoked 0 n hn
+      exact ⟨items.map (·.serial), by unfold msgRevokedSerials; rw [hi]; rfl⟩
+    rw [validateAt_iff]
+    refine ⟨rfl, ⟨m.messageDigest, st, hp, h1⟩, h4, h2, h3, ?_, ?_, ?_⟩
+    · rw [eeValid_iff]; exact ⟨h5, ⟨h7, h8⟩, h9, h10, h6⟩
+    · rw [crlValid_iff]; exact ⟨by simp [toMsg, h11], h12, h13, h14, h15⟩
+    · show m.cert.serial ∉ (msgRevokedSerials m.crl.revoked).getD []
+      rw [hl]; exact h16 l hl
+
+end Iff
 
 end Rpki.Props.C10
